@@ -27,7 +27,8 @@ KsTable == <<
   [strat |-> "simple", rfdc |-> <<"*">>, rfn |-> <<3>>],
   [strat |-> "nts", rfdc |-> <<"dc1">>, rfn |-> <<2>>],
   [strat |-> "nts", rfdc |-> <<"dc1", "dc2">>, rfn |-> <<3, 1>>],
-  [strat |-> "nts", rfdc |-> <<"dc1">>, rfn |-> <<0>>] >>
+  [strat |-> "nts", rfdc |-> <<"dc1">>, rfn |-> <<0>>],
+  [strat |-> "nts", rfdc |-> <<"dc1">>, rfn |-> <<3>>] >>
 
 Bases == {<<"rr", "dc1", "r1">>, <<"dc", "dc1", "r1">>, <<"dc", "dc2", "r1">>,
           <<"rack", "dc1", "r1">>, <<"rack", "dc1", "r2">>, <<"rack", "dc2", "r1">>}
